@@ -340,7 +340,8 @@ package nsqd
 // section without re-checking, so concurrent SUBs exceed --max-channel-consumers
 // (replay nsqd_max_channel_consumers_race_test.go; fix 0001-...patch makes the clause discharge).
 //@ func (c *Channel) AddClient(clientID int64, client Consumer) error
-//@   props C08
+//@   props C08 C09 C03
+//@   nochan
 //@   requires c != nil && c.nsqd != nil && client != nil
 //@   ensures[exiting-refused] c.exitFlag == 1 ==> result != nil
 //@   ensures[subscribed] result == nil ==> atunlock(has(c.clients, clientID))
@@ -348,21 +349,29 @@ package nsqd
 //@   ensures[refused-changes-nothing] result != nil && c.exitFlag != 1 ==> atunlock(len(c.clients)) == atlock(len(c.clients)) && (atunlock(has(c.clients, clientID)) <==> atlock(has(c.clients, clientID)))
 //@   ensures[others-kept] c.exitFlag != 1 ==> kOthersKept(c, clientID)
 //@   ensures[at-most-one-more] c.exitFlag != 1 ==> atunlock(len(c.clients)) == atlock(len(c.clients)) || (atunlock(len(c.clients)) == atlock(len(c.clients)) + 1 && !atlock(has(c.clients, clientID)) && atunlock(c.clients[clientID]) == client)
-//@   modifies c.clients, mapstore(map[int64]Consumer)
+//@   modifies c.clients, mapstore(map[int64]Consumer), lAddCalls
+//   what was asked and what came back, for SUB's contract (ghosts declared in zz_contracts_lcmds_verif.go)
+//@   onreturn lAddCalls := lAddCalls + 1
+//@   onreturn lAddChan := c
+//@   onreturn lAddID := clientID
+//@   onreturn lAddErr := result
 
 // RemoveClient: afterwards the connection is not subscribed (unless the channel is closing: then nothing is
 // touched - exit() closes the connections itself); other subscriptions are never touched.
 // An EPHEMERAL CHANNEL disappears once its last consumer leaves: its deletion is started (go c.deleter.Do, recorded
 // by the onceSpawns ghosts) exactly when this call removed the last subscription of an ephemeral channel.
 //@ func (c *Channel) RemoveClient(clientID int64)
-//@   props C08
+//@   props C08 C09 C03
 //@   requires c != nil
 //@   ensures[unsubscribed] c.exitFlag != 1 ==> !atunlock(has(c.clients, clientID))
 //@   ensures[others-kept] c.exitFlag != 1 ==> kOthersKept(c, clientID)
 //@   ensures[len] c.exitFlag != 1 ==> atunlock(len(c.clients)) == atlock(len(c.clients)) - (atlock(has(c.clients, clientID)) ? 1 : 0)
 //@   ensures[deletion-only-if-ephemeral-and-last] onceSpawns != old(onceSpawns) ==> c.ephemeral && onceSpawns == old(onceSpawns) + 1 && onceSpawned == &c.deleter
 //@   ensures[durable-channel-stays] !c.ephemeral ==> onceSpawns == old(onceSpawns)
-//@   modifies c.clients, mapstore(map[int64]Consumer), onceSpawns
+//@   modifies c.clients, mapstore(map[int64]Consumer), onceSpawns, lRemoveCalls
+//@   onreturn lRemoveCalls := lRemoveCalls + 1
+//@   onreturn lRemoveChan := c
+//@   onreturn lRemoveID := clientID
 
 // doPause sets the flag first and then tells the subscribers (only subscribers, only the matching call).
 //@ func (c *Channel) doPause(pause bool) error
